@@ -90,6 +90,7 @@ fn sys_opts() -> gen::GraphOpts {
         mega: false,
         symlinks: false,
         read_above: true,
+        scratch_dir: false,
     }
 }
 
